@@ -198,9 +198,15 @@ sys.path.insert(0, {verif!r}); sys.path.insert(0, {scratch!r})
 import logging; logging.disable(logging.CRITICAL)
 from qav import core
 m = core.load_repo()
-from ctparse.scorer import DummyScorer
-out = {{"default_scorer": type(m._DEFAULT_SCORER).__name__, "fails": [], "n": 0, "nt": 0}}
-if isinstance(m._DEFAULT_SCORER, DummyScorer):
+import datetime
+_sc = core.default_scorer()
+# 'falls back to the constant scorer' is decided by behaviour: every candidate of every probe text gets one and the same score
+_scores = set()
+for _t in ("tomorrow 8pm", "friday 9-5", "5.10.2020 at 8", "next week monday morning"):
+    for _c in m.ctparse_gen(_t, ts=datetime.datetime(2020, 2, 3, 10, 0), timeout=0):
+        if _c is not None: _scores.add(_c.score)
+out = {{"default_scorer": type(_sc).__name__, "constant": len(_scores) <= 1, "fails": [], "n": 0, "nt": 0}}
+if out["constant"]:
     from qav.props import c01
     cases = json.load(sys.stdin)
     import datetime
@@ -242,10 +248,10 @@ def model_absent_batch(pid, cases):
                  (p.stderr or p.stdout)[-1500:])
         return acc
     out = json.loads(line[0][len("@@RESULT@@"):])
-    if out["default_scorer"] != "DummyScorer":
+    if not out["constant"]:
         acc.n += 1
         acc.fail("model-absent:fallback-is-not-constant-scorer", {"model_absent": True, "text": None},
-                 "default scorer is " + out["default_scorer"])
+                 "default scorer is " + out["default_scorer"] + ": candidates of the probe texts get different scores")
         return acc
     for c in cases:
         acc.case(("absent", json.dumps(c, sort_keys=True)), nontrivial=True, cls="model-absent",
